@@ -140,7 +140,8 @@ Definition as_oev (v : val) : option oev :=
   | _ => None
   end.
 
-(* replay the model on the observed events; a delivery may have happened at any second of [t0, t1] *)
+(* replay the model on the observed events; a delivery may have happened at any second of [t0, t1], and
+   the interval WritePacket computes does not grow with time: the observed one lies between the two ends *)
 Fixpoint agrees (sub5 : bool) (c : cfg) (present : bool) (os : list oev) : bool :=
   match os with
   | [] => true
@@ -149,7 +150,8 @@ Fixpoint agrees (sub5 : bool) (c : cfg) (present : bool) (os : list oev) : bool 
   | ODeliver t0 t1 d mei :: r =>
       let '(p', _) := step c present (EDeliver t0) in
       Bool.eqb d present &&
-      (negb d || negb sub5 || (mei =? write_interval c (stored_expiry c) t0) || (mei =? write_interval c (stored_expiry c) t1)) &&
+      (negb d || negb sub5 ||
+       ((write_interval c (stored_expiry c) t1 <=? mei) && (mei <=? write_interval c (stored_expiry c) t0))) &&
       agrees sub5 c p' r
   end.
 
